@@ -31,6 +31,10 @@ ASSUMPTIONS = ["events are executed one at a time, in source order (the library 
 REQUIRED_COUNTERS = ["streams_run", "responses_compared_with_R3", "source_failures_checked", "creation_failures_checked", "end_of_stream_checked", "responses_rechecked_at_end"]
 
 
+class CleanupError(Exception):
+    pass
+
+
 class SourceError(Exception):
     pass
 
@@ -38,8 +42,9 @@ class SourceError(Exception):
 class EventSource:
     """Harness source event stream: gated emission, life-cycle counters."""
 
-    def __init__(self, sched, events, fail_at=None):
+    def __init__(self, sched, events, fail_at=None, aclose_fails=False):
         self.sched, self.events, self.fail_at = sched, list(events), fail_at
+        self.aclose_fails = aclose_fails
         self.i = 0
         self.started = False
         self.exhausted = False
@@ -66,6 +71,10 @@ class EventSource:
 
     async def aclose(self):
         self.aclose_calls += 1
+        if self.aclose_fails and (self.raised or self.exhausted):
+            # e.g. a dropped connection that cannot send "unsubscribe" any more: a failing clean-up of a source that is
+            # already dead must not replace what the consumer is owed (the source's own exception / the normal end)
+            raise CleanupError('cannot unsubscribe')
 
 
 def event_value_fn(schema, seed, ev, fault):
@@ -113,7 +122,7 @@ def run_stream(schema, doc, variables, seed, scenario, sched_seed, p_async, poli
     src_ref = {}
     hz = SubHarness(sched, sched_seed, schema, fault, p_async, src_ref)
     hz.seed_base = seed
-    source = EventSource(sched, scenario['payloads'], scenario.get('fail_at'))
+    source = EventSource(sched, scenario['payloads'], scenario.get('fail_at'), scenario.get('aclose_fails', False))
     src_ref['source'] = source
     out = {'kind': None, 'responses': [], 'snapshots': [], 'raised': None, 'ended': False, 'raised_after': None, 'result': None, 'closed_by_consumer': False}
     creation = scenario.get('creation')
@@ -313,6 +322,9 @@ def check_case(ctx, seed, k):
         scenario['close_after'] = rng.randint(0, n)
     elif kind < 0.6:
         scenario['creation'] = rng.choice(['raise', 'return-error', 'not-iterable', 'none', 'await-raise', 'await-not-iterable', 'await-ok'])
+    if 'creation' not in scenario and rng.random() < 0.3:
+        scenario['aclose_fails'] = True
+        ctx.count("scenarios_with_failing_source_cleanup")
     case = {"seed": seed, "source": src, "variables": variables}
     for j in range(3):
         ctx.case()
